@@ -199,6 +199,10 @@ def alphabet(role, level):
     else:
         mv.append(("MSD", pu0, 100))
         mv.append(("SDB", eu, 5))
+    for final in (MSD - 1, MSD):
+        mv.append(("TWICE", ("RESET", pb0, final)))
+    mv.append(("TWICE", ("RESET", pu0, MSD)))
+    mv.append(("TWICE", ("STREAM", pb1, 0, MSD, True)))
     mv.append(("ACKALL",))
     mv.append(("TIMER",))
     mv.append(("EOPEN", eb))
@@ -286,6 +290,14 @@ def step(bot, ref, mv):
         r = bot.send([{"t": "ACK", "ranges": [(pns[-1], pns[-1])], "delay": 0}] + to_frames(mv))
         mv = smv
         k = "STREAM"
+    elif k == "TWICE":
+        # the same frame twice in one packet (a retransmission that arrives together with the original):
+        # judged as the frame once - repeating it uses no additional credit
+        inner = tuple(mv[1])
+        expect = ref.judge(inner)
+        r = bot.send(to_frames(inner) + to_frames(inner))
+        mv = inner
+        k = inner[0]
     else:
         expect = ref.judge(mv)
         r = bot.send(to_frames(mv))
@@ -461,6 +473,29 @@ def rep_case(args):
                     break
                 if conn._state.name != "CONNECTED":
                     break
+        elif name == "ncid_below_rpt_burst":
+            # one datagram: Retire Prior To jumps ahead first, then many NEW_CONNECTION_ID frames whose sequence
+            # numbers are already below it (a reordered rotation flight): each must be retired at once, all of
+            # it before the endpoint gets to transmit - the backlog of pending retirements is measured at its peak
+            class PeakList(list):
+                peak = 0
+
+                def append(self, x):
+                    list.append(self, x)
+                    PeakList.peak = max(PeakList.peak, len(self))
+
+            PeakList.peak = len(conn._retire_connection_ids)
+            conn._retire_connection_ids = PeakList(conn._retire_connection_ids)
+            frames = [{"t": "NEW_CONNECTION_ID", "seq": 70, "rpt": 70, "cid": (70).to_bytes(8, "big"), "token": bytes(16)}]
+            for kq in range(69, 69 - 41, -1):
+                frames.append({"t": "NEW_CONNECTION_ID", "seq": kq, "rpt": 0, "cid": kq.to_bytes(8, "big"), "token": bytes(16)})
+            n += len(frames)
+            bot.send(frames)
+            worst = PeakList.peak
+            if worst > 4 * conn._local_active_connection_id_limit + 8:
+                viol = ({"monitor": "bound.retire_queue"},
+                        "%d pending retirements at the peak while one datagram with %d NEW_CONNECTION_ID frames below "
+                        "Retire Prior To was processed (connection %s)" % (worst, len(frames) - 1, conn._state.name))
         elif name == "ncid_no_ack":
             # retire-prior-to rising while the RETIRE frames are never acknowledged
             for kq in range(1, 200):
@@ -553,7 +588,7 @@ def rep_case(args):
     return (role, name, n, worst, conn._state.name, viol)
 
 
-REP = ["ncid_dup_after_local_retire1", "ncid_dup_after_local_retire2", "ncid_dup_after_local_retire3", "crypto_holes", "path_challenges", "ncid_retire_prior_to", "ncid_no_ack", "local_challenges",
+REP = ["ncid_below_rpt_burst", "ncid_dup_after_local_retire1", "ncid_dup_after_local_retire2", "ncid_dup_after_local_retire3", "crypto_holes", "path_challenges", "ncid_retire_prior_to", "ncid_no_ack", "local_challenges",
        "never_finished_streams"]
 
 
